@@ -14,16 +14,17 @@ import (
 )
 
 // Value is one of:
-//   *sym.Term   numeric / bool scalar
-//   Pointer     address of (part of) an object
-//   SliceV      slice header
-//   *StringV    immutable string (byte cells)
-//   IfaceV      interface value
-//   *MapObj     map reference (nil map = (*MapObj)(nil))
-//   *Closure    function value
-//   *ChanObj    channel
-//   *StructV / *ArrayV   aggregate register values
-//   Tuple       multiple results
+//
+//	*sym.Term   numeric / bool scalar
+//	Pointer     address of (part of) an object
+//	SliceV      slice header
+//	*StringV    immutable string (byte cells)
+//	IfaceV      interface value
+//	*MapObj     map reference (nil map = (*MapObj)(nil))
+//	*Closure    function value
+//	*ChanObj    channel
+//	*StructV / *ArrayV   aggregate register values
+//	Tuple       multiple results
 type Value interface{}
 
 type Tuple []Value
@@ -82,13 +83,13 @@ type Closure struct {
 }
 
 type ChanObj struct {
-	ID     int
-	Buf    []Value
-	Cap    int
-	Closed bool
-	RecvWaiting bool // the interpreted goroutine is parked in a receive on this channel (idle hook running)
-	Nondet string // non-empty: environment-driven channel (ticker); value = label
-	ET     types.Type
+	ID          int
+	Buf         []Value
+	Cap         int
+	Closed      bool
+	RecvWaiting bool   // the interpreted goroutine is parked in a receive on this channel (idle hook running)
+	Nondet      string // non-empty: environment-driven channel (ticker); value = label
+	ET          types.Type
 }
 
 type StructV struct{ F []Value }
